@@ -64,6 +64,7 @@ TAGS = {
     "cb:change": {"C16", "C09", "C07"},
     "cb:unsub": {"C09", "C10", "C04"},
     "cb:effect": {"C11", "C12", "C08"},
+    "cb:after": {"C11", "C02"},
     "loop.wait": {"C01", "C02", "C05", "C06", "C07", "C12", "C03", "C11", "C18"},
     "loop.wrote": {"C01", "C08", "C12", "C07"},
     "eff.spawn": {"C11", "C12", "C07"},
